@@ -51,6 +51,7 @@ type fsInput struct {
 	Families   []fsFamily    `json:"families"`
 	SmallMax   uint32        `json:"small_max"`
 	TrueIdx    []int         `json:"true_idx"` // the behaviours replayed at the node's real MaxPayloadLength (8 MiB frames are expensive)
+	Stride     int           `json:"stride"`   // small scale: behaviour i runs on the families f with (i + f) % stride == 0
 }
 
 var errWouldBlock = errors.New("verif: the connection has no byte to give and is still open (a real connection would block here)")
@@ -504,9 +505,13 @@ func TestVerifFrameStream(t *testing.T) {
 				jobs <- job{&in.Scenarios[si], si, fi, true}
 			}
 		}
+		stride := 1
+		if scale == "small" && in.Stride > 1 {
+			stride = in.Stride
+		}
 		feed := func(bi int) {
 			for fi := range in.Families {
-				if in.Families[fi].Scale == scale {
+				if in.Families[fi].Scale == scale && (bi+fi)%stride == 0 {
 					jobs <- job{&in.Behaviours[bi], bi, fi, false}
 				}
 			}
